@@ -1,4 +1,5 @@
-CONSTANT Nodes = {1, 2}
+CONSTANT Nodes = {n1}
+CONSTANT n1 = n1
 CONSTANT DBs = {"A", "B"}
 CONSTANT CollChoices <- CC2
 CONSTANT MaxOps = 3
@@ -6,12 +7,12 @@ CONSTANT MaxLoads = 1
 CONSTANT MaxCrashes = 1
 CONSTANT MaxAttempts = 2
 CONSTANT MaxAttemptsU = 2
-CONSTANT AllowStalePrev = TRUE
-CONSTANT AllowOrphanDeleteLive = TRUE
-CONSTANT AllowDeleteFinalizeLive = TRUE
 CONSTANT MaxReload = 3
 CONSTANT MaxSteps = 1000
 CONSTANT Sequential = TRUE
+CONSTANT AllowStalePrev = TRUE
+CONSTANT AllowOrphanDeleteLive = TRUE
+CONSTANT AllowDeleteFinalizeLive = TRUE
 SPECIFICATION Spec
 VIEW view
 INVARIANT LoadAtomic
